@@ -99,7 +99,11 @@ def run(ctx):
             table_of = {m['name']: m['table'] for m in spec['apps'][0]['models']}
             rep = {'spec': spec, 'routes': {nm: db for nm, db in zip(names, split)}, 'mutations': muts, 'seed': seed,
                    'catch_all': catch_all}
-            evorig.set_routes(routes, catch_all)
+            # every third split: the router also gives a per-app answer to the model-less question (as routers written
+            # for RunPython/RunSQL do), which says nothing about where the app's MODELS go
+            app_level = {'vapp': 'default'} if k % 3 == 1 else None
+            rep['app_level_answer'] = app_level
+            evorig.set_routes(routes, catch_all, app_level)
             try:
                 evorig.fresh_databases()
                 evorig.clear_evolutions()
